@@ -14,15 +14,55 @@ import (
 	"strconv"
 	"time"
 
+	"verif/internal/build"
 	"verif/internal/c14"
 	"verif/internal/c20"
 	"verif/internal/core"
 	"verif/internal/evid"
+	"verif/internal/simbuild"
 )
 
 var checks = map[string]core.CheckFunc{
 	"C14": c14.Run,
 	"C20": c20.Run,
+}
+
+// instrument is a development aid: instruments a scratch copy, builds it, prints the site table.
+func instrument() int {
+	defer build.RunCleanups()
+	s, err := build.NewScratch("instr")
+	if err != nil {
+		fmt.Fprintln(os.Stderr, err)
+		return 2
+	}
+	if err := s.CopyRepo("/examples", "/internal/integration"); err != nil {
+		fmt.Fprintln(os.Stderr, err)
+		return 2
+	}
+	st, err := simbuild.InstrumentOgen(s)
+	if err != nil {
+		fmt.Fprintln(os.Stderr, err)
+		return 2
+	}
+	for _, x := range st.Sites {
+		fmt.Println("site", x.ID, x.Note)
+	}
+	for _, x := range st.Uncontrolled {
+		fmt.Println("UNCONTROLLED", x.ID, x.Note)
+	}
+	fmt.Println(st.PerRule, "packages", st.Packages)
+	for _, tool := range []build.GoTool{build.GoDefault, build.GoSim} {
+		if err := s.Go(tool, s.Src, "build", "./..."); err != nil {
+			fmt.Fprintln(os.Stderr, err)
+			return 2
+		}
+		if err := s.Go(tool, s.Src, "vet", "./gen/...", "./openapi/...", "./jsonschema/...", "./simrt/..."); err != nil {
+			fmt.Fprintln(os.Stderr, err)
+			return 2
+		}
+	}
+	fmt.Println("instrumented tree builds and vets with both toolchains")
+	return 0
 }
 
 func usage() {
@@ -41,6 +81,8 @@ func main() {
 		}
 	}
 	switch os.Args[1] {
+	case "instrument":
+		os.Exit(instrument())
 	case "--replay":
 		if len(os.Args) != 3 {
 			usage()
